@@ -134,6 +134,10 @@ package dynblock
 // verif:func (unknownBody).PartialContent
 //@ nosafety
 //@ ensures remain: typeis(ret1, unknownBody) && unbox(ret1, unknownBody).valueMarks == b.valueMarks
+// (assumed frame: fixupAttrs only fills the new attribute map it returns)
+// verif:func (unknownBody).fixupAttrs
+//@ trusted
+//@ assigns nothing
 // verif:func (unknownBody).fixupContent
 //@ nosafety
 //@ requires got != nil && (forall j int :: { got.Blocks[j] } 0 <= j && j < len(got.Blocks) ==> got.Blocks[j] != nil)
